@@ -9,7 +9,7 @@
    [decode] is MakeLabelVolume, [value_at] Block.Value, [point_label] GetPointLabels,
    [write_rles true] the repaired WriteRLEs, [marshal]/[unmarshal] (Un)MarshalBinary. *)
 From DV Require Import Base.Prelude Base.Int Base.BitPack Model.Block Model.BlockViews
-     Proofs.BitPack Proofs.Block Proofs.BlockMarshal Proofs.BlockViews Proofs.Downres Proofs.BlockCount Gen.Consts.
+     Proofs.BitPack Proofs.Block Proofs.BlockMarshal Proofs.BlockViews Proofs.Downres Proofs.BlockCount Proofs.BlockOps Proofs.BlockBinary Gen.Consts.
 From DV Require Import Model.BlockOps.
 Local Open Scope N_scope.
 
@@ -122,13 +122,18 @@ Theorem C09_counts_view : forall tbl vol wx wy wz ox oy oz gx gy gz sbs b a,
 Proof. exact calc_num_labels_encode. Qed.
 Print Assumptions C09_counts_view.
 
-(* Stated, not proved (validated on every generated case only): the binary-block view.
-   BinaryBlock.Read (WriteBinaryBlocks b) = the mask of the label set in the array. *)
-Definition C09_binary_statement : Prop :=
-  forall tbl a gx gy gz b main lbls bx by_ bz o, length a = N.to_nat (8 * gx * (8 * gy) * (8 * gz)) ->
-    (forall l, In l a -> In l tbl) -> NoDup tbl -> encode tbl a gx gy gz = Ok b ->
-    write_binary b main lbls bx by_ bz = Ok o -> o <> [] ->
-    exists off, read_binary o = Ok (gx, gy, gz, main, off, map (fun l => mem l lbls) a).
+(* Binary-block view: what BinaryBlock.Read returns for the bytes WriteBinaryBlocks wrote for one
+   block (any block coordinate) is the block's geometry, the main label, and the mask "label is in
+   the set" of the decoded array — for every well-formed block with a duplicate-free label table
+   (every encoder output with a duplicate-free table, via C10_encoded_blocks_wf) and duplicate-free
+   label set.  (With duplicate table slots WriteBinaryBlocks stops collecting slots early; see notes.) *)
+Theorem C09_binary_view : forall b voxs a main lbls bx by_ bz o,
+  block_wf b voxs -> NoDup (b_labels b) -> NoDup lbls -> decode b = Ok a ->
+  b_gx b < 2 ^ 32 -> b_gy b < 2 ^ 32 -> b_gz b < 2 ^ 32 -> main < 2 ^ 64 ->
+  write_binary b main lbls bx by_ bz = Ok o -> o <> [] ->
+  exists off, read_binary o = Ok (b_gx b, b_gy b, b_gz b, main, off, map (fun v => mem v lbls) a).
+Proof. exact read_write_binary. Qed.
+Print Assumptions C09_binary_view.
 
 (* Non-vacuity: a concrete 16x16x16 array with two labels in one sub-block is encoded, decodes
    to itself, and the canonical table covers it (C09_rle_unrepaired_refuted, first two conjuncts);
